@@ -1,6 +1,9 @@
 import SciVerif.Drive.Util
 import SciVerif.Model.C17
 import SciVerif.Lemmas.C17k
+import SciVerif.Lemmas.C17l
+import SciVerif.Lemmas.C17m
+import SciVerif.Lemmas.C17n
 open Lean SciVerif.Drive
 
 namespace SciVerif.C17.Drive
@@ -185,7 +188,10 @@ def parseSources (tbl : UnitTable) : List Json → List (Str × List Node) → L
     let items ← (← getList (← field j "items")).mapM getItem
     match parseC tbl { Env.empty with sources := acc, srcUnits := ua } items with
     | .error e => throw s!"source: {e}"
-    | .ok env => parseSources tbl rest (acc ++ [(name, env.nodes)]) (ua ++ [(name, env.units)])
+    | .ok env =>
+      -- `withSource`: the installation step of C17_refinement_with_source_partial / C17_inv_with_source
+      let e' := withSource { Env.empty with sources := acc, srcUnits := ua } name env
+      parseSources tbl rest e'.sources e'.srcUnits
 
 def specSources (tbl : UnitTable) : List Json → List (Str × List SNode) → List (Str × UnitDefs) →
     Except String (Option (List (Str × List SNode) × List (Str × UnitDefs)))
@@ -195,7 +201,9 @@ def specSources (tbl : UnitTable) : List Json → List (Str × List SNode) → L
     let stmts ← (← getList (← field j "stmts")).mapM getStmt
     match sRunC tbl (⟨[], acc, false, [], ua⟩, none) stmts with
     | .error _ => pure none
-    | .ok (env, _) => specSources tbl rest (acc ++ [(name, env.nodes)]) (ua ++ [(name, env.units)])
+    | .ok (env, _) =>
+      let s' := sWithSource ⟨[], acc, false, [], ua⟩ name env
+      specSources tbl rest s'.sources s'.srcUnits
 
 /-- name of `env.nodes[-1]` before every line of the main text (what a property line acts on) -/
 def lastTrace (tbl : UnitTable) : CEnv → List Item → List Json
@@ -396,6 +404,17 @@ def nestedCover (tbl : UnitTable) (benv : Env) (items : List Item) (stmts : List
       if !itemsMatch its items then "records-differ"
       else if runNB tbl benv ls then "accepts" else "refuses"
 
+/-- the declared-node fragment (C17_refinement_declared_partial) on the program that is run: every
+    statement passes `litFragB`, the line records `concD` builds are, field by field, the records
+    the model is run on, and `invDB` accepts the environment the program starts from -/
+def declCover (tbl : UnitTable) (benv : Env) (items : List Item) (stmts : List SStmt) : String :=
+  if !stmts.all litFragB then "outside-fragment"
+  else match stmts.mapM concD with
+    | none => "outside-fragment"
+    | some its =>
+      if !itemsMatch its items then "records-differ"
+      else if invDB tbl benv then "accepts" else "env-refused"
+
 def runTie (tbl : UnitTable) (mj sj : Json) : Except String Json := do
   let srcs ← getList (fieldD mj "sources" |> fun x => if x == Json.null then Json.arr #[] else x)
   match parseSources tbl srcs [] [] with
@@ -414,9 +433,32 @@ def runTie (tbl : UnitTable) (mj sj : Json) : Except String Json := do
         | .imp d so q => some (d, so, q)
         | _ => none)
       let frag := fragRunB tbl (absEnv benv) mainStmts
+      -- `invB` (C17_inv_decidable): the invariant the refinement theorems assume of the initial
+      -- environment, evaluated on the environment the main program starts from (parsed remote
+      -- sources, parsed base), and on the environment the model ends in
+      let invFinal : Json := match parseC tbl benv mainItems with
+        | .ok env => Json.bool (invB tbl env)
+        | .error _ => Json.null
+      let badNodes := (benv.nodes ++ benv.sources.flatMap (fun s => s.2)).filter (fun n => !goodB tbl n)
+      -- the base stage of C17_refinement_on_base_partial: `invB` on the environment the base text
+      -- starts from, `runNB` on the base text read as `NLine`s
+      let baseNested : Json ← if baseJ == Json.null then pure Json.null else do
+        let sb := fieldD sj "base"
+        let baseStmts ← if sb == Json.null then pure [] else (← getList sb).mapM getStmt
+        pure (jstr (nestedCover tbl env0 baseItems baseStmts))
       pure (Json.mkObj [("imports", Json.arr ((sites.zip imps).map tieOne).toArray),
                         ("frag", Json.bool frag),
-                        ("nested", jstr (nestedCover tbl benv mainItems mainStmts))])
+                        ("nested", jstr (nestedCover tbl benv mainItems mainStmts)),
+                        ("inv0", Json.bool (invB tbl env0)),
+                        ("declared", jstr (declCover tbl benv mainItems mainStmts)),
+                        ("declared_has_decl", Json.bool (mainStmts.any (fun s => match s with
+                          | .decl .. => true
+                          | _ => false))),
+                        ("base_nested", baseNested),
+                        ("inv", Json.bool (invB tbl benv)),
+                        ("inv_bad", jarr (fun (n : Node) => jS n.name) badNodes),
+                        ("inv_declared", Json.bool (badNodes.any (fun n => n.value.isNone))),
+                        ("inv_final", invFinal)])
 
 def handle (j : Json) : Except String Json := do
   let k ← (← field j "k").getStr?
